@@ -763,7 +763,7 @@ impl Xot {
                     && self.advanced_compare_attributes(a, b, text_compare)
             }
             (Value::Text(a), Value::Text(b)) => text_compare(a.get(), b.get()),
-            (Value::Comment(a), Value::Comment(b)) => a.get() == b.get(),
+            (Value::Comment(a), Value::Comment(b)) => text_compare(a.get(), b.get()),
             (Value::ProcessingInstruction(a), Value::ProcessingInstruction(b)) => {
                 if a.target() != b.target() {
                     return false;
